@@ -28,6 +28,13 @@ CELL = {0: '0', 1: '1'}
 
 
 def gen_case(rng):
+  inst = _gen_case(rng)
+  if rng.random() < 0.25:
+    inst['elig_reused_first'] = True
+  return inst
+
+
+def _gen_case(rng):
   inst = se.gen_instance(rng, 'quick', max_admitted=6, theme='default')
   ids = inst['geos']
   kind = rng.choice(['none', 'subset', 'equal', 'superset_ok', 'superset_bad', 'equal', 'mixed_ok', 'mixed_bad'])
@@ -103,11 +110,23 @@ def check_case(out, inst, model_lines, queries):
   facts = {'call': 'TBRMMData', 'elig_kind': inst['elig_kind'], 'id_type': inst['id_type']}
   frame = se.build_frame(inst, id_type=inst['id_type'])
   frame0 = frame.copy(deep=True)
+  elig_obj = se.build_elig(inst)
+  elig0 = elig_obj.data.copy(deep=True) if elig_obj is not None else None
+  if elig_obj is not None and inst.get('elig_reused_first') and len(table) > 1:
+    # the caller's eligibility object was first used with a smaller panel (fewer geos); it must come back unchanged
+    keep = sorted(table)[:max(1, len(table) // 2)]
+    try:
+      tbrmmdata.TBRMMData(frame[frame['geo'].astype(str).isin(keep)].copy(), 'response', elig_obj)
+    except ValueError:
+      pass
   try:
-    data = tbrmmdata.TBRMMData(frame, 'response', se.build_elig(inst))
+    data = tbrmmdata.TBRMMData(frame, 'response', elig_obj)
     err = None
   except Exception as e:
     data, err = None, type(e).__name__
+  if elig_obj is not None and not elig_obj.data.equals(elig0):
+    out.oracle_violation(dict(facts, symptom='eligibility-mutated'), case, 'the caller\'s eligibility object was modified')
+    return
   # reconciliation rule
   el = inst['elig']
   missing_bad = el is not None and any(g not in table and c[2] != 1 for g, c in el.items())
